@@ -90,6 +90,8 @@ LineBytes(t) ==
     [] t = "lower"   -> "get /a HTTP/1.1"
     [] t = "badver"  -> "GET /a HTTP/1.1x"
     [] t = "empty"   -> "\r\nGET /e HTTP/1.1"        \* one empty line before the request-line
+    [] t = "empty2"  -> "\r\n\r\nPOST /e2 HTTP/1.1"  \* two / three empty lines (RFC 9112 2.2: SHOULD ignore at least one)
+    [] t = "empty3"  -> "\r\n\r\n\r\nPOST /e3 HTTP/1.1"
     \* status lines (client view)
     [] t = "s200"    -> "HTTP/1.1 200 OK"
     [] t = "s200_10" -> "HTTP/1.0 200 OK"
